@@ -15,7 +15,7 @@ MS_ALGS = ["FDD_MS", "EFDD_MS", "SSIcov_MS", "SSIdat_MS", "pLSCF_MS"]
 TRANSF = ["gain", "gain_pow2", "perm", "mix", "time", "time_pow2"]
 REQUIRED_MONITORS = [f"{t}@{a}" for a in SS_ALGS for t in ("gain", "perm", "mix", "time")] + [f"{t}@{a}" for a in MS_ALGS for t in ("gain", "perm", "time")] + ["unit-normalisation", "labels@SC_apply under an exact time unit", "stable-pole labels on bit-identical tables"]
 ALL_STATES = ["method_SD=per", "method_SD=cor", "ref_ind subset", "free decay + noise", "white noise", "random response", "default hard criteria", "neutral MPC/MPD"]
-REQUIRED_STATES = ["method_SD=per", "method_SD=cor", "ref_ind subset", "free decay + noise", "white noise", "random response", "base record of integer type", "picks and band limits exactly on spectral lines (time-unit clause)", "integer-typed picks (time-unit clause)"]
+REQUIRED_STATES = ["extraction at the automatically selected order", "multi-setup records scaled by a gain below 3e-4", "method_SD=per", "method_SD=cor", "ref_ind subset", "free decay + noise", "white noise", "random response", "base record of integer type", "picks and band limits exactly on spectral lines (time-unit clause)", "integer-typed picks (time-unit clause)"]
 RULE = ("two (three) executions of the real algorithm through a setup on related inputs: base, transformed (gain 10^U(-6,6) or 2^k, channel permutation "
         "with ref_ind mapped, orthogonal mixing, time unit k in 10^U(-2,2) or 2^k) and a rounding probe (data * (1 + 1e-15 noise)); whole pole tables "
         "compared column by column as multisets of (f, xi, shape up to conjugation), NaN counts equal, extracted Fn/Xi/Phi and the frequency grid; a "
@@ -123,6 +123,8 @@ def do_mpe(s, a, spec, sel, fs):
             # (band half-widths that never put a band limit exactly on a spectral line for whole-number picks: the SDOF-bell band of the
             # library includes / excludes a line by comparison, which is decided by the last bit when a limit coincides with a line)
             s.mpe("a", sel_freq=list(sel), DF1=0.0213 * fs, DF2=0.0617 * fs)
+        elif spec.get("find_min"):
+            s.mpe("a", sel_freq=list(sel), rtol=0.05)  # the documented default: the lowest order with one stable pole per band
         else:
             o = spec["kw"]["ordmax"] - 1
             s.mpe("a", sel_freq=list(sel), order=int(o), rtol=0.05)
@@ -275,7 +277,11 @@ def compare(ctx, tr, alg, base, other, probe, fscale, T, tol):
 
 
 # ------------------------------------------------------------------------------------- cases
-def draw_transform(rng, tr, nch):
+def draw_transform(rng, tr, nch, small=False):
+    if tr == "gain" and small:
+        return dict(g=float(10 ** rng.uniform(-6, -3.5)) * float(rng.choice([-1, 1])))  # records in very small units (m/s^2 expressed in km/s^2, volts in kV)
+    if tr == "gain_pow2" and small:
+        return dict(g=float(2.0 ** int(rng.integers(-20, -12))) * float(rng.choice([-1, 1])))
     if tr == "gain":
         return dict(g=float(10 ** rng.uniform(-6, 6)) * float(rng.choice([-1, 1])))
     if tr == "gain_pow2":
@@ -309,6 +315,9 @@ def run_single_case(ctx, case, rng):
     if "br" in spec["kw"]:
         spec["kw"]["ordmax"] = min(spec["kw"]["ordmax"], spec["kw"]["br"] * nch - 1)
     sel = [float(f) for f in fn]
+    if spec["mpe"] == "order" and alg.startswith("SSI") and case.get("k", 0) % 2 == 1:
+        spec["find_min"] = True
+        ctx.state("extraction at the automatically selected order")
     if tr.startswith("time") and spec["mpe"] in ("DF", "DF12"):
         u = rng.random()
         if spec["mpe"] == "DF" and case.get("k", 0) % 2 == 0:
@@ -402,7 +411,12 @@ def run_multi_case(ctx, case, rng):
     if "br" in spec["kw"]:
         spec["kw"]["ordmax"] = min(spec["kw"]["ordmax"], (spec["kw"]["br"] + 1) * nref - 2)
     sel = [float(f) for f in fn]
-    if tr.startswith("gain") and rng.random() < 0.5:
+    small = tr.startswith("gain") and case.get("k", 0) % 2 == 0
+    if small:
+        sd = float(np.std(data))
+        datasets = [d / sd for d in datasets]  # unit-variance records; the transformed run has them in units 3e-4 .. 1e-6 times as large
+        ctx.state("multi-setup records scaled by a gain below 3e-4")
+    elif tr.startswith("gain") and rng.random() < 0.5:
         sd = float(np.std(data))
         datasets = [np.round(d / sd * 4000).astype(np.int32) for d in datasets]  # raw counts
         ctx.state("base record of integer type")
@@ -414,7 +428,7 @@ def run_multi_case(ctx, case, rng):
     if stored[0].dtype.kind in "iu":
         compare(ctx, tr, alg, base, run_multi(stored, reflist, fs, spec, sel), probe, 1.0, (lambda p: p), 1e-9)
     if tr.startswith("gain"):
-        t = draw_transform(rng, tr, ndof)
+        t = draw_transform(rng, tr, ndof, small=small)
         other = run_multi([d * t["g"] for d in datasets], reflist, fs, spec, sel)
         if tr == "gain_pow2":
             tol = 1e-9
